@@ -74,6 +74,8 @@ theorem stable_50H : Stable F50H.parse AcctLines.ser := stable_of_reproduces _ _
 theorem stable_50K : Stable F50K.parse AcctLines.ser := stable_of_reproduces _ _ f50K_reproduces
 theorem stable_59 : Stable F59.parse AcctLines.ser := stable_of_reproduces _ _ f59_reproduces
 theorem stable_59A : Stable F59A.parse F59A.ser := stable_of_reproduces _ _ f59A_reproduces
+/-- 52B, 54B, 55B, 57B -/
+theorem stable_optionB : Stable OptB.parse OptB.ser := stable_of_reproduces _ _ optB_reproduces
 /-- 50C -/
 theorem stable_bic : Stable parseBic id := stable_of_reproduces _ _ (fun s v h => parseBic_value s v h)
 
